@@ -1,2 +1,85 @@
+(* C12 - property theorems, TransactionalValue part: one producer executing operator= for
+   each of vs in turn, one consumer calling update()/get()/ref(), every statement of
+   operator= and update() its own step, the mutex explicit, ANY schedule.  Values carry
+   their position in the assignment sequence as a ghost tag (0 = the initial value). *)
 From Common Require Import Prelude.
 From C12 Require Import Model Proofs ProofsTVal.
+Local Open Scope N_scope.
+
+(* every value the consumer sees was assigned (or is the initial one), values are seen in
+   assignment order (log_ok: get() and a false update() repeat the previous value, a true
+   update() moves to a strictly later assignment), and update() never installs a
+   queuedValue the producer did not assign (stale) *)
+Theorem tval_order : forall (A : Type) (v0 : A) (vs : list A) sched,
+  let s := tv_run (tv_init_tagged v0 vs) sched in
+  stale s = false /\ log_ok (0, v0) (log s) /\ Forall (fun e => tv_valid v0 vs (ev_val e)) (log s).
+Proof. exact @ProofsTVal.tv_order_proof. Qed.
+Print Assumptions tval_order.
+
+(* update() returns true exactly when it installed a newer value; after a false update()
+   get() returns what it returned before *)
+Theorem tval_update_true_iff_newer : forall (A : Type) (v0 : A) (vs : list A) sched l1 b v l2,
+  log (tv_run (tv_init_tagged v0 vs) sched) = l1 ++ EvUpdate b v :: l2 ->
+  (b = true <-> fst (log_cur (0, v0) l1) < fst v) /\ (b = false -> v = log_cur (0, v0) l1).
+Proof. exact @ProofsTVal.tv_update_iff_proof. Qed.
+Print Assumptions tval_update_true_iff_newer.
+
+(* an update() call that runs while the producer is outside operator= (between two
+   assignments or after the last) obtains the latest value assigned so far: n = 1, the flag
+   was false and that value is already current; n = 5, the five steps of a true update() *)
+Theorem tval_quiescent_update : forall (A : Type) (v0 : A) (vs : list A) sched,
+  let s := tv_run (tv_init_tagged v0 vs) sched in
+  p_pc s = PIdle -> c_pc s = CIdle ->
+  exists v n, (n = 1 \/ n = 5)%nat /\
+    fst v = N.of_nat (length vs - length (p_rem s)) /\ tv_valid v0 vs v /\
+    let s' := tv_run s (repeat (ACons DoUpdate) n) in
+    c_pc s' = CIdle /\ p_pc s' = PIdle /\ p_rem s' = p_rem s /\ tv_current (obj s') = v /\
+    log s' = log s ++ [EvUpdate (Nat.eqb n 5) v].
+Proof. exact @ProofsTVal.tv_quiescent_proof. Qed.
+Print Assumptions tval_quiescent_update.
+
+(* once the producer has stopped, the consumer's next update() leaves the last assigned value *)
+Theorem tval_last_value : forall (A : Type) (v0 : A) (vs : list A) sched,
+  let s := tv_run (tv_init_tagged v0 vs) sched in
+  p_rem s = [] -> p_pc s = PIdle -> c_pc s = CIdle ->
+  exists n, (n = 1 \/ n = 5)%nat /\
+    let s' := tv_run s (repeat (ACons DoUpdate) n) in
+    c_pc s' = CIdle /\ tv_current (obj s') = (N.of_nat (length vs), last vs v0) /\
+    log s' = log s ++ [EvUpdate (Nat.eqb n 5) (N.of_nat (length vs), last vs v0)].
+Proof. exact @ProofsTVal.tv_last_proof. Qed.
+Print Assumptions tval_last_value.
+
+(* the tags are ghost state: the untagged system is the tagged one with the tags erased *)
+Theorem tval_tags_are_ghost : forall (A : Type) (v0 : A) vs sched,
+  tv_run (tv_init v0 vs) sched = map_sys snd (tv_run (tv_init_tagged v0 vs) sched).
+Proof. exact @ProofsTVal.tv_erase_proof. Qed.
+Print Assumptions tval_tags_are_ghost.
+
+(* the acceptance function run (extracted) on the histories recorded by the stress harness
+   accepts only coherent histories whose quiescent points show the value just assigned.
+   (partial: the converse - every history of the model is accepted - is not proved; it is
+   exercised by the harness runs, which must all be accepted) *)
+Theorem tval_accept_sound_partial : forall v0 vs l,
+  tv_accept v0 vs l = true -> log_ok (0, v0) (evs_of l) /\ quiet_ok (0, v0) l.
+Proof. exact ProofsTVal.tv_accept_sound_proof. Qed.
+Print Assumptions tval_accept_sound_partial.
+
+(* non-vacuity: the producer assigns 7 then 9; the consumer's first update() sees the flag
+   after the first assignment, is overtaken by the second assignment while waiting for the
+   mutex and installs 9 (7 is skipped, which the property allows); then a false update() *)
+Example tval_example :
+  let s := tv_run (tv_init_tagged 5 [7; 9])
+             [ACons DoGet; AProd; AProd; AProd; ACons DoUpdate; AProd; AProd; ACons DoUpdate; AProd; AProd; AProd;
+              ACons DoUpdate; ACons DoUpdate; ACons DoUpdate; ACons DoUpdate; ACons DoGet; ACons DoUpdate] in
+  log s = [EvGet (0, 5); EvUpdate true (2, 9); EvGet (2, 9); EvUpdate false (2, 9)]
+  /\ stale s = false /\ p_rem s = [] /\ p_pc s = PIdle /\ c_pc s = CIdle.
+Proof. vm_compute. repeat split. Qed.
+
+Example tval_accept_example :
+  tv_accept 0 [1; 2; 3] [HEv (EvUpdate false (0, 0)); HEv (EvUpdate true (2, 2)); HEv (EvGet (2, 2)); HQuiet 2;
+                         HEv (EvUpdate true (3, 3)); HQuiet 3] = true
+  /\ tv_accept 0 [1; 2; 3] [HEv (EvUpdate true (2, 2)); HEv (EvUpdate true (1, 1)); HEv (EvUpdate true (3, 3))] = false
+  /\ tv_accept 0 [1; 2; 3] [HEv (EvUpdate true (2, 2)); HEv (EvUpdate false (2, 2)); HQuiet 3] = false
+  /\ tv_accept 0 [1; 2; 3] [HEv (EvUpdate true (2, 2))] = false
+  /\ tv_accept 0 [1; 2; 3] [HEv (EvUpdate false (3, 3))] = false.
+Proof. vm_compute. repeat split. Qed.
